@@ -31,9 +31,9 @@ type DeadlineRec struct {
 
 // BlockEvent is a client Read/Write that found the peer silent.
 type BlockEvent struct {
-	Op       string // "read" / "write"
-	At       time.Time
-	Deadline time.Time // zero = none armed: the call would block forever
+	Op       string    // "read" / "write"
+	At       time.Time // virtual time of the event
+	Deadline time.Time // virtual scale; zero = none armed: the call would block forever
 	After    string    // position label of the last exchange
 }
 
@@ -70,7 +70,10 @@ type Conn struct {
 	FailInData func(txn, have, n int) int
 	// BreakWrites makes every further client write fail with a connection reset (nothing is delivered).
 	BreakWrites bool
-	// Skew is added to the wall clock when deadlines are evaluated (virtual idle time).
+	// Skew is the offset of the connection's VIRTUAL clock from the wall clock. A check may advance it (idle time);
+	// every block event that is resolved against an armed deadline advances it to that deadline (the time the
+	// client would really have waited). Deadlines are kept on the virtual scale: a deadline computed by the client
+	// as time.Now()+d AFTER a wait therefore lies d after the END of that wait.
 	Skew time.Duration
 	// InjectAfterStartTLS is appended in clear right after the 220 reply to STARTTLS (plaintext injection).
 	InjectAfterStartTLS string
@@ -121,6 +124,9 @@ func (c *Conn) start() {
 
 func (c *Conn) now() time.Time { return time.Now().Add(c.Skew) }
 
+// VNow is the connection's virtual time (wall clock plus everything the client has waited for so far).
+func (c *Conn) VNow() time.Time { c.mu.Lock(); defer c.mu.Unlock(); return c.now() }
+
 func (c *Conn) lastPos() string {
 	if n := len(c.S.Transcript); n > 0 {
 		return c.S.Transcript[n-1].Pos
@@ -151,8 +157,11 @@ func (c *Conn) Read(p []byte) (int, error) {
 		return 0, io.EOF
 	}
 	// the peer is silent: block event
-	c.Blocks = append(c.Blocks, BlockEvent{Op: "read", At: time.Now(), Deadline: c.rdl, After: c.lastPos()})
+	c.Blocks = append(c.Blocks, BlockEvent{Op: "read", At: c.now(), Deadline: c.rdl, After: c.lastPos()})
 	if !c.rdl.IsZero() {
+		if d := c.rdl.Sub(c.now()); d > 0 {
+			c.Skew += d
+		}
 		c.rExp = true
 		if !c.wdl.IsZero() && !c.wdl.After(c.rdl) {
 			c.wExp = true
@@ -185,7 +194,10 @@ func (c *Conn) Write(p []byte) (int, error) {
 	}
 	var ferr error
 	if c.WriteStallAt >= 0 && c.Written+len(p) > c.WriteStallAt {
-		c.Blocks = append(c.Blocks, BlockEvent{Op: "write", At: time.Now(), Deadline: c.wdl, After: c.lastPos()})
+		c.Blocks = append(c.Blocks, BlockEvent{Op: "write", At: c.now(), Deadline: c.wdl, After: c.lastPos()})
+		if d := c.wdl.Sub(c.now()); !c.wdl.IsZero() && d > 0 {
+			c.Skew += d
+		}
 		k := c.WriteStallAt - c.Written
 		if k < 0 {
 			k = 0
@@ -299,11 +311,15 @@ func (c *Conn) setdl(kind string, t time.Time) {
 	c.mu.Lock()
 	defer c.mu.Unlock()
 	c.Deadlines = append(c.Deadlines, DeadlineRec{At: time.Now(), Value: t, Kind: kind})
+	vt := t
+	if !t.IsZero() {
+		vt = t.Add(c.Skew) // the client computed t from the wall clock; on the virtual scale it lies Skew later
+	}
 	if kind != "w" {
-		c.rdl, c.rExp = t, false
+		c.rdl, c.rExp = vt, false
 	}
 	if kind != "r" {
-		c.wdl, c.wExp = t, false
+		c.wdl, c.wExp = vt, false
 	}
 }
 func (c *Conn) SetDeadline(t time.Time) error      { c.setdl("rw", t); return nil }
